@@ -12,6 +12,7 @@ func init() {
 	arms["diff"] = runDiff
 	generators["C14"] = func(c *Case, rng *vrt.Rand, tier string) func(r *Runner, i int) *Op {
 		c.Arm = "diff"
+		c.Hostile = rng.Chance(0.3) // the caller reuses its buffers: only some index types copy the key on their own
 		c.Cfg = genConfig(rng, rng.Chance(0.5))
 		n := rng.Range(1, 3)
 		for i := 0; i < n; i++ {
